@@ -1,6 +1,7 @@
 From WB Require Import Base.Str Base.StrFacts Base.Json Model.Key Model.Store Model.Match
   Model.Subs Model.Entry Model.Core Spec.MapSpec
-  Proofs.StoreFacts Proofs.TreeInv Proofs.GoodNames Proofs.MergeFacts Proofs.MatchFacts Proofs.CoreFacts.
+  Proofs.StoreFacts Proofs.TreeInv Proofs.GoodNames Proofs.MergeFacts Proofs.MatchFacts Proofs.CoreFacts
+  Proofs.C05Proof Proofs.LenFacts.
 
 (* the requests C01 speaks about *)
 Definition c01_op (o : op) : Prop :=
@@ -21,16 +22,61 @@ Definition import_ok (o : op) : Prop :=
 Lemma meq_refl m : meq m m.
 Proof. intros q. reflexivity. Qed.
 
-Theorem step_refines s o :
+(* ---- pls ---- *)
+Lemma In_dedup x l : In x (dedup l) <-> In x l.
+Proof.
+  induction l as [|y l IH]; cbn [dedup]; [reflexivity|]. cbn [In]. rewrite filter_In, IH.
+  split.
+  - intros [H|[H _]]; auto.
+  - intros [H|H]; [now left|]. destruct (str_eqb_spec y x) as [E|Hne]; [now left|right].
+    split; [exact H|]. reflexivity.
+Qed.
+
+Lemma NoDup_dedup l : NoDup (dedup l).
+Proof.
+  induction l as [|y l IH]; cbn [dedup]; constructor.
+  - rewrite filter_In. cbv beta. intros [_ H]. now rewrite str_eqb_refl in H.
+  - now apply NoDup_filter.
+Qed.
+
+Lemma reach_multi_has {V} (n : node V) : forall p, reach_multi n p = true -> In Multi p.
+Proof.
+  induction n as [v cs IH] using node_ind'. intros p H.
+  destruct p as [|[s| |] tail]; cbn [reach_multi] in H; [discriminate| | |now left].
+  - right. induction IH as [|[k c] cs Hc Hcs IHcs]; [discriminate|].
+    destruct (str_eqb s k); [now apply Hc|now apply IHcs].
+  - right. induction IH as [|[k c] cs Hc Hcs IHcs]; [discriminate|].
+    apply orb_true_iff in H as [H|H]; [now apply Hc|now apply IHcs].
+Qed.
+
+Lemma pls_exact {V} (n : node V) p x :
+  wfn n -> cleann n ->
+  (In x (collect_children n p) <->
+   exists P q e, parent_match p P = true /\ lookup n (P ++ x :: q) = Some e).
+Proof.
+  intros Hw Hc. rewrite (collect_children_spec n p x Hw). split.
+  - intros (P & m & Hm & Hg & Hin). pose proof (ls_exact n P Hw Hc) as H. unfold ls_at in H. rewrite Hg in H.
+    destruct H as (_ & H). apply H in Hin as (q & e & Hl). now exists P, q, e.
+  - intros (P & q & e & Hm & Hl). pose proof (ls_exact n P Hw Hc) as H. unfold ls_at in H.
+    destruct (get_node n P) as [m|] eqn:Hg in H |- *.
+    + exists P, m. split; [exact Hm|]. split; [exact Hg|]. apply (proj2 H). now exists q, e.
+    + rewrite H in Hl. discriminate.
+Qed.
+
+(* read_ok without the clause for len, which needs the invariant of the cached count *)
+Definition read_ok0 (m : mstate) (o : op) (r : result) : Prop :=
+  match o with OLen => True | _ => read_ok m o r end.
+
+Lemma step_refines0 s o :
   Inv s -> c01_op o -> import_ok o ->
   let r := step s o in
   o_res (snd r) <> RCrash ->
   Inv (fst r) /\
   write_effect (abs s) (abs (fst r)) o (o_res (snd r)) /\
-  read_ok (abs s) o (o_res (snd r)).
+  read_ok0 (abs s) o (o_res (snd r)).
 Proof.
   intros HI Hop Himp. pose proof HI as (Hw & Hc & Hg & Hr).
-  destruct o; try contradiction; cbn [step]; intros Hnc.
+  destruct o; try contradiction; cbn [step read_ok0]; intros Hnc.
   - (* get *)
     cbn [fst snd o_res out_res]. split; [assumption|]. split; [apply meq_refl|].
     cbn [read_ok]. unfold do_get. destruct (parse_segments k); [|reflexivity].
@@ -51,8 +97,12 @@ Proof.
         destruct (ls_at (data s) (split slash parent)); [exact H|]. split; [reflexivity|exact H].
       * pose proof (ls_exact (data s) [] Hw Hc) as H. exact H.
   - (* pls *)
-    cbn [fst snd o_res out_res]. split; [assumption|]. split; [|exact I].
-    destruct (do_pls s parent); apply meq_refl.
+    cbn [fst snd o_res out_res]. split; [assumption|]. split; [destruct (do_pls s parent); apply meq_refl|].
+    cbn [read_ok]. unfold do_pls. destruct parent as [parent|].
+    + destruct (reach_multi (data s) (kseg_parse parent)) eqn:Erm.
+      * split; [reflexivity|]. exact (reach_multi_has _ _ Erm).
+      * split; [apply NoDup_dedup|]. intros x. rewrite In_dedup. exact (pls_exact (data s) _ x Hw Hc).
+    + pose proof (ls_exact (data s) [] Hw Hc) as H. exact H.
   - (* len *)
     cbn [fst snd o_res out_res]. split; [assumption|]. split; [apply meq_refl|exact I].
   - (* set *)
@@ -96,13 +146,28 @@ Qed.
 
 (* a request answered with an error changes nothing a later request can observe: the map is
    the same, and (by step_refines) every later read is a function of the map *)
+Theorem step_refines s o :
+  Inv s -> LenInv s -> c01_op o -> import_ok o ->
+  let r := step s o in
+  o_res (snd r) <> RCrash ->
+  Inv (fst r) /\ LenInv (fst r) /\
+  write_effect (abs s) (abs (fst r)) o (o_res (snd r)) /\
+  read_ok (abs s) o (o_res (snd r)).
+Proof.
+  intros HI HL Hop Himp r Hnc. destruct (step_refines0 s o HI Hop Himp Hnc) as (HI' & Hw & Hr).
+  split; [exact HI'|]. split; [now apply step_len|]. split; [exact Hw|].
+  destruct o; try exact Hr. cbn [step snd o_res out_res read_ok].
+  destruct (count_is_keys (data s) (proj1 HI)) as (keys & Hnd & Hin & Hcount).
+  exists keys. split; [exact Hnd|]. split; [exact Hin|]. unfold LenInv in HL. congruence.
+Qed.
+
 Theorem error_is_noop s o code :
   Inv s -> c01_op o -> import_ok o ->
   o_res (snd (step s o)) = RErr code ->
   meq (abs (fst (step s o))) (abs s) /\ Inv (fst (step s o)).
 Proof.
   intros HI Hop Himp Hr.
-  destruct (step_refines s o HI Hop Himp) as (HI' & Hw & _); [rewrite Hr; discriminate|].
+  destruct (step_refines0 s o HI Hop Himp) as (HI' & Hw & _); [rewrite Hr; discriminate|].
   split; [|assumption]. rewrite Hr in Hw. destruct o; try contradiction; exact Hw.
 Qed.
 
@@ -136,13 +201,13 @@ Lemma is_crash_false o : o_res o <> RCrash -> is_crash o = false.
 Proof. unfold is_crash. destruct (o_res o); congruence. Qed.
 
 Theorem run_refines ops : forall s,
-  Inv s -> Forall c01_op ops -> Forall import_ok ops -> no_crash (run s ops) ->
+  Inv s -> LenInv s -> Forall c01_op ops -> Forall import_ok ops -> no_crash (run s ops) ->
   spec_trace (abs s) ops (run s ops).
 Proof.
-  induction ops as [|o ops IH]; intros s HI Hops Himp Hnc; [exact I|].
+  induction ops as [|o ops IH]; intros s HI HL Hops Himp Hnc; [exact I|].
   inversion Hops as [|? ? Ho Hops']; subst. inversion Himp as [|? ? Hi Himp']; subst.
   cbn [run] in *. inversion Hnc as [|? ? Hc Hnc']; subst.
-  destruct (step_refines s o HI Ho Hi Hc) as (HI' & Hw & Hr).
+  destruct (step_refines s o HI HL Ho Hi Hc) as (HI' & HL' & Hw & Hr).
   rewrite (is_crash_false _ Hc) in *. cbn [spec_trace]. split; [exact Hr|].
   exists (abs (fst (step s o))). split; [exact Hw|]. now apply IH.
 Qed.
@@ -153,4 +218,4 @@ Proof. intros q. unfold abs, m_empty. apply lookup_empty. Qed.
 Corollary run_refines_init ops :
   Forall c01_op ops -> Forall import_ok ops -> no_crash (run init ops) ->
   spec_trace (abs init) ops (run init ops).
-Proof. intros. now apply (run_refines ops init Inv_init). Qed.
+Proof. intros. now apply (run_refines ops init Inv_init eq_refl). Qed.
